@@ -425,4 +425,22 @@ def rule_temporaries(ctx):
     return rr
 
 
-RULES = [("C13-R1", rule_r1), ("C13-R2", rule_r2), ("C13-R3", rule_r3), ("C13-R4", rule_r4), ("C13-R5", rule_r5), ("C13-R6", rule_r6), ("C13-R7", rule_r7), ("C13-R8", rule_r8), ("C09-R1", rule_temporaries)]
+def rule_c07(ctx):
+    """The value of an assignment is evaluated once, before the targets; target sub-expressions once,
+    in order (instances of C07-R1/R2 for Assign/AnnAssign/AugAssign)."""
+    from .c07 import rule_r1 as c07r1, rule_r2 as c07r2
+
+    rr = RuleResult("C07-R1", "assignment statements: value once and first, target sub-expressions once and in order (instance of C07-R1/R2)")
+    rr.floor = 3
+    for src in (c07r1(ctx), c07r2(ctx)):
+        for f in src.findings:
+            if any(f"|{k}|" in f.key for k in ("Assign", "AnnAssign", "AugAssign")):
+                rr.fail(f.key, f.msg, where=f.where)
+        for w in sorted(map(str, src.nontrivial)):
+            if w.startswith(("Assign", "AnnAssign", "AugAssign")):
+                rr.instances += 1
+                rr.ok(w)
+    return rr
+
+
+RULES = [("C07-R1", rule_c07), ("C13-R1", rule_r1), ("C13-R2", rule_r2), ("C13-R3", rule_r3), ("C13-R4", rule_r4), ("C13-R5", rule_r5), ("C13-R6", rule_r6), ("C13-R7", rule_r7), ("C13-R8", rule_r8), ("C09-R1", rule_temporaries)]
